@@ -61,6 +61,8 @@ type pcvOpsOut struct {
 	AddOutput opRes  `json:"addOutput"`
 	PCEV      opRes  `json:"pcev"`
 	Balances  []jBal `json:"balances"`
+	// the "balance" member Volumes.MarshalJSON adds to every entry of a marshalled PostCommitVolumes
+	JSONBalances []jBal `json:"jsonBalances"`
 	// the receiver of SubtractPostings / the argument of Merge must stay untouched
 	AUnchanged bool `json:"aUnchanged"`
 }
@@ -109,6 +111,25 @@ func runPcvOps(in pcvOpsIn) (out pcvOpsOut) {
 		}
 	})
 	sortBals(out.Balances)
+	out.JSONBalances = make([]jBal, 0)
+	_ = guard(func() {
+		raw, err := json.Marshal(nestPCV(in.A))
+		if err != nil {
+			return
+		}
+		var generic map[string]map[string]struct {
+			Balance *big.Int `json:"balance"`
+		}
+		if err := json.Unmarshal(raw, &generic); err != nil {
+			return
+		}
+		for account, byAsset := range generic {
+			for asset, v := range byAsset {
+				out.JSONBalances = append(out.JSONBalances, jBal{Account: account, Asset: asset, Balance: str(v.Balance)})
+			}
+		}
+	})
+	sortBals(out.JSONBalances)
 	return out
 }
 
@@ -136,16 +157,19 @@ func genPcvIn(c *gen.Ctx) pcvIn {
 		i, o := genVolumes(r)
 		in.Prior = append(in.Prior, jVol{Account: a, Asset: s, Input: i, Output: o})
 	}
+	fresh := r.Intn(6) == 0 // no touched pair has a row yet (first use of every account)
 	for _, p := range in.Postings {
-		if r.Intn(3) > 0 {
+		if !fresh && r.Intn(3) > 0 {
 			add(p.Source, p.Asset)
 		}
-		if r.Intn(3) > 0 {
+		if !fresh && r.Intn(3) > 0 {
 			add(p.Destination, p.Asset)
 		}
 	}
-	for i := r.Intn(3); i > 0; i-- {
-		add(gen.Pick(r, accounts(c)), gen.Pick(r, assetPool))
+	if !fresh {
+		for i := r.Intn(3); i > 0; i-- {
+			add(gen.Pick(r, accounts(c)), gen.Pick(r, assetPool))
+		}
 	}
 	if in.Prior == nil {
 		in.Prior = []jVol{}
